@@ -130,13 +130,8 @@ Example lnt_met_fixed :
   lnt_peripherals [mkP (MList [0]) (MList [s_DRUG])] [mkP (MList [0]) (MList [s_DRUG]); mkP (MList [1]) (MList [s_MET])] = Ok [].
 Proof. vm_compute. reflexivity. Qed.
 
-(* C18-ALLOMETRY-DEFAULT-REF: "ALLOMETRY(WT)" is a sentence of the grammar (`allometry: "ALLOMETRY"i "(" value ["," decimal] ")"`,
-   the class has the default reference 70.0) but AllometryInterpreter indexes children[1]: IndexError *)
-Theorem allometry_default_ref_refuted :
-  exists text ss,
-    parse_ref text = Some ss /\ existsb allometry_missing_ref ss = true /\ elaborate_all ss <> None /\
-    parse_mfl text = InternalError.
-Proof.
-  exists [65;76;76;79;77;69;84;82;89;40;87;84;41]%N. eexists. split; [vm_compute; reflexivity|].
-  split; [vm_compute; reflexivity|]. split; [vm_compute; discriminate|vm_compute; reflexivity].
-Qed.
+(* C18-ALLOMETRY-DEFAULT-REF, fixed by c794b0d (formerly IndexError): "ALLOMETRY(WT)" is read with the default reference 70 *)
+Example allometry_default_ref_fixed :
+  parse_mfl [65;76;76;79;77;69;84;82;89;40;87;84;41]%N =
+  Accepted [mkS n_ALLOMETRY false [AVals [IWord [87;84]%N]; AVals [IWord default_reference]]].
+Proof. vm_compute. reflexivity. Qed.
